@@ -495,7 +495,12 @@ func TestC06(t *testing.T) {
 		Assumptions: []string{"clocks in 2017-2030 (go-whisper uses int clocks of its own)", "cases in which the reference writer itself panics or fails are discarded and counted"},
 		Gen: func(t *rapid.T) C06Case {
 			o := defaultLayoutOpts()
+			o.HugePct = 2     // archives of thousands of slots: windows longer than any bulk-read buffer
+			o.BigRatioPct = 2 // hundreds / thousands of finer slots per coarser slot
 			l := genLayout(t, o)
+			if rapid.IntRange(0, 29).Draw(t, "manyArchives") == 0 {
+				l = genManyArchiveLayout(t)
+			}
 			if rapid.IntRange(0, 39).Draw(t, "huge") == 0 {
 				return genHugeC06(t)
 			}
